@@ -19,10 +19,18 @@ def eval_program(arg) -> dict:
     seed, stream, scratch, tier = arg
     common.import_dznpy()
     want_mc = stream % 3 == 1
+    # one program per run wraps a component whose two rerouted ports use interfaces from
+    # unrelated namespaces, each referring to its own extern of the same simple name
+    twins = stream % 6 == 2
     prog, case, _rng = progrun.make_program(PROP, seed, stream, scratch, want_mc,
                                             mc_position=['first', 'middle', 'last'][(stream // 3) % 3],
-                                            mc_shape=stream // 3)
+                                            mc_shape=stream // 3, twins=twins)
     out = {'violations': [], 'counts': {}}
+    if twins:
+        prog.enc['provides'] = {'sts': 'NONE', 'mts': 'ALL'}
+        prog.enc['requires'] = {'sts': 'NONE', 'mts': 'ALL'}
+        case['cfg'] = prog.enc
+        out['counts']['programs_with_same_named_externs_in_unrelated_namespaces'] = 1
     flavors = ['plain'] + (['asan'] if stream % 5 == 0 else [])
     if not progrun.build_or_report(prog, case, out, flavors):
         return progrun.finish_program(prog, out, case)
@@ -55,7 +63,8 @@ def main(tier: str) -> int:
     run = common.Run(PROP, tier)
     n = 12 if tier == 'quick' else 500
     run.require('stimuli', 'arrivals', 'args_compared', 'returns_compared', 'programs',
-                'programs_multiclient', 'programs_with_ports_sharing_an_interface')
+                'programs_multiclient', 'programs_with_ports_sharing_an_interface',
+                'programs_with_same_named_externs_in_unrelated_namespaces')
     scratch = run.scratch()
     progrun.drive(run, eval_program, [(run.seed, i, scratch, tier) for i in range(n)])
     return run.finish(
